@@ -42,21 +42,21 @@ Print Assumptions c02_ring_refines_queue.
 
 (* admission of a fresh session, per protocol: prologue, then the live message
    unless it has to wait for a key frame (boundary for TS) *)
-Theorem c02_fresh_flv : forall cache key lt c,
+Theorem c02_fresh_flv : forall cache key hdr lt c,
   c_kind c = KFlv -> c_fresh c = true ->
   let wait1 := if Nat.ltb 0 (gc_count cache) then false else c_wait c in
-  let c' := flv_step cache key lt c in
+  let c' := flv_step cache key hdr lt c in
   c_fresh c' = false /\ c_wait c' = (wait1 && negb key) /\
-  c_out c' = c_out c ++ prologue cache false ++ (if wait1 && negb key then [] else [lt]).
+  c_out c' = c_out c ++ prologue cache false ++ (if wait1 && negb key && negb hdr then [] else [lt]).
 Proof. exact flv_fresh_visit. Qed.
 Print Assumptions c02_fresh_flv.
 
-Theorem c02_fresh_rtmp : forall cache key c,
+Theorem c02_fresh_rtmp : forall cache key hdr lc c,
   c_fresh c = true ->
   let wait1 := if Nat.ltb 0 (gc_count cache) then false else c_wait c in
-  let '(c', flushed) := rtmp_visit cache key c in
+  let '(c', flushed) := rtmp_visit cache key hdr lc c in
   flushed = true /\ c_fresh c' = false /\ c_wait c' = (wait1 && negb key) /\
-  c_out c' = c_out c ++ prologue cache false.
+  c_out c' = c_out c ++ prologue cache false ++ (if wait1 && negb key && hdr then [lc] else []).
 Proof. exact rtmp_fresh_visit. Qed.
 Print Assumptions c02_fresh_rtmp.
 
@@ -76,18 +76,21 @@ Theorem c02_fresh_ts : forall cache pat boundary lt c,
 Proof. exact ts_fresh_visit. Qed.
 Print Assumptions c02_fresh_ts.
 
-(* a session that waits for a key frame receives nothing until one comes, and then that key frame *)
-Theorem c02_waiting_flv : forall cache key lt c,
+(* a session that waits for a key frame receives no FRAME until one comes, and then that key
+   frame; metadata and sequence headers ([hdr]) reach it at once and leave it waiting (fix F-08i) *)
+Theorem c02_waiting_flv : forall cache key hdr lt c,
   c_kind c = KFlv -> c_fresh c = false -> c_wait c = true ->
-  let c' := flv_step cache key lt c in
-  c_fresh c' = false /\ c_wait c' = negb key /\ c_out c' = c_out c ++ (if key then [lt] else []).
+  let c' := flv_step cache key hdr lt c in
+  c_fresh c' = false /\ c_wait c' = negb key /\ c_out c' = c_out c ++ (if key || hdr then [lt] else []).
 Proof. exact flv_waiting_visit. Qed.
 Print Assumptions c02_waiting_flv.
 
-Theorem c02_waiting_rtmp : forall cache key c,
+(* RTMP: the key frame itself follows through the broadcast writer / merge writer once the wait is over *)
+Theorem c02_waiting_rtmp : forall cache key hdr lc c,
   c_fresh c = false -> c_wait c = true ->
-  let '(c', flushed) := rtmp_visit cache key c in
-  flushed = key /\ c_fresh c' = false /\ c_wait c' = negb key /\ c_out c' = c_out c.
+  let '(c', flushed) := rtmp_visit cache key hdr lc c in
+  flushed = key /\ c_fresh c' = false /\ c_wait c' = negb key /\
+  c_out c' = c_out c ++ (if negb key && hdr then [lc] else []).
 Proof. exact rtmp_waiting_visit. Qed.
 Print Assumptions c02_waiting_rtmp.
 
@@ -117,13 +120,15 @@ Definition amsg (b0 b1 tail : N) : rmsg := {| rm_type := 8; rm_ts := 0; rm_paylo
 Definition out_of (cf : cfg) (h : list ev) (id : N) : option (list label) :=
   option_map c_out (find_sub (run cf h) id).
 
-(* F-08(i): an AAC sequence header published while the consumer waits for a
-   key frame is never delivered, yet AAC frames are *)
-Lemma c02_header_while_waiting_refuted :
-  let h := [EvInStart; EvPublish (vmsg 23 0 1); EvJoin KFlv 1; EvPublish (amsg 175 0 2);
-            EvPublish (vmsg 23 1 3); EvPublish (amsg 175 1 4)] in
-  mclass_of (amsg 175 0 2) = MAsh /\ out_of (cfg0 0) h 1 = Some [LT 0; LT 2; LT 3].
-Proof. vm_compute. split; reflexivity. Qed.
+(* F-08(i), FIXED (lal): an AAC sequence header published while the consumer waits
+   for a key frame is delivered at once, the wait goes on (the inter frame 2 is withheld),
+   with and without the merge writer; general statement: c02_header_in_force *)
+Lemma c02_header_while_waiting_delivered :
+  let h := [EvInStart; EvPublish (vmsg 23 0 1); EvJoin KFlv 1; EvJoin KRtmp 2; EvPublish (amsg 175 0 2);
+            EvPublish (vmsg 39 1 5); EvPublish (vmsg 23 1 3); EvPublish (amsg 175 1 4)] in
+  mclass_of (amsg 175 0 2) = MAsh /\ out_of (cfg0 0) h 1 = Some [LT 0; LT 1; LT 3; LT 4] /\
+  out_of (cfg0 0) h 2 = Some [LC 0; LC 1; LC 3; LC 4].
+Proof. vm_compute. repeat split; reflexivity. Qed.
 
 (* F-08(ii), FIXED (lal): GOPs cached under the first sequence header are
    dropped when a header with other content arrives; an identical header keeps them *)
